@@ -51,24 +51,115 @@ def same_value(ev: Evaluator, p1: Optional[Pfx], u1: UnitV, p2: Optional[Pfx], u
 
 
 def check_resolve_order(rep: Report, prog: Program) -> None:
-    """The model of resolve_symbol used by R13.2 must be the code's: exact symbol, then the
-    first prefix+symbol split, then name."""
+    """The model of resolve_symbol used by R13.2 must be the code's: exact symbol, then the first
+    prefix+symbol split, then name, else KeyError.  Decided by walking the function under each of the
+    eight truth assignments to (exact symbol registered, some split resolves, name registered) and
+    looking at what it returns - not at how the statements are arranged."""
     fi = prog.func("Unit.resolve_symbol")
-    body = [s for s in fi.node.body if not (isinstance(s, ast.Expr) and isinstance(s.value, ast.Constant))]
-    kinds = []
-    for s in body:
-        t = ast.unparse(s)
-        if isinstance(s, ast.If) and "_by_symbol" in ast.unparse(s.test):
-            kinds.append("symbol")
-        elif isinstance(s, ast.For) and "range(1, len(" in ast.unparse(s.iter) and "Prefix.resolve_symbol" in t and "_by_symbol" in t:
-            kinds.append("split")
-        elif isinstance(s, ast.If) and "_by_name" in ast.unparse(s.test):
-            kinds.append("name")
-        elif isinstance(s, ast.Raise):
-            kinds.append("raise")
-    rep.check("R13.2", "Unit.resolve_symbol:order", kinds == ["symbol", "split", "name", "raise"],
-              f"Unit.resolve_symbol resolves in the order {kinds}; the symbol-table analysis assumes exact symbol, first "
-              "prefix+symbol split, name, KeyError", fi.where())
+    ps = fi.params()
+    text = ps[1] if len(ps) > 1 else "symbol"
+
+    class _Done(Exception):
+        def __init__(self, kind: str) -> None:
+            self.kind = kind
+
+    def classify(v: Optional[ast.AST], env: Dict[str, str]) -> str:
+        if v is None:
+            return "none"
+        if isinstance(v, ast.Name) and v.id in env:
+            return env[v.id]
+        t = ast.unparse(v).replace(" ", "")
+        if isinstance(v, ast.BinOp) and isinstance(v.op, ast.Mult):
+            return "split"
+        if "_by_symbol[" + text + "]" in t:
+            return "symbol"
+        if "_by_name[" + text + "]" in t or ".named(" + text + ")" in t:
+            return "name"
+        return "other:" + t[:30]
+
+    def truth(t: ast.AST, facts: Dict[str, bool]) -> Optional[bool]:
+        if isinstance(t, ast.UnaryOp) and isinstance(t.op, ast.Not):
+            v = truth(t.operand, facts)
+            return None if v is None else not v
+        if isinstance(t, ast.Compare) and len(t.ops) == 1 and isinstance(t.ops[0], (ast.In, ast.NotIn)) and ast.unparse(t.left) == text:
+            reg = ast.unparse(t.comparators[0])
+            v = facts["S"] if reg.endswith("_by_symbol") else (facts["N"] if reg.endswith("_by_name") else None)
+            return None if v is None else (v if isinstance(t.ops[0], ast.In) else not v)
+        return None
+
+    def may_fail(st: ast.stmt) -> bool:
+        """a lookup of a *piece* of the text (raises KeyError when no split resolves)"""
+        t = ast.unparse(st)
+        return ("Prefix.resolve_symbol(" in t or "_by_symbol[" in t) and f"[{text}]" not in t.replace(" ", "")
+
+    def run(body: List[ast.stmt], facts: Dict[str, bool], env: Dict[str, str]) -> str:
+        """-> 'fall' | 'continue' ; raises _Done for return/raise"""
+        for st in body:
+            if isinstance(st, ast.Expr):
+                continue
+            if isinstance(st, ast.Return):
+                raise _Done(classify(st.value, env))
+            if isinstance(st, ast.Raise):
+                raise _Done("raise")
+            if isinstance(st, ast.Assign) and len(st.targets) == 1 and isinstance(st.targets[0], ast.Name):
+                env[st.targets[0].id] = classify(st.value, env)
+                continue
+            if isinstance(st, (ast.Assign, ast.AnnAssign)):
+                continue
+            if isinstance(st, ast.If):
+                v = truth(st.test, facts)
+                if v is None:
+                    raise AnalysisError(f"Unit.resolve_symbol: cannot decide `{ast.unparse(st.test)[:40]}` from the registration facts")
+                r = run(st.body if v else st.orelse, facts, env)
+                if r == "continue":
+                    return r
+                continue
+            if isinstance(st, ast.For):
+                r = run(st.body, facts, env)   # one representative iteration: the split that resolves, if any
+                if st.orelse and r != "break":
+                    run(st.orelse, facts, env)
+                continue
+            if isinstance(st, ast.Try):
+                fails = any(may_fail(x) for x in st.body)
+                if fails and not facts["P"]:
+                    handlers = [h for h in st.handlers if h.type is None or "KeyError" in ast.unparse(h.type) or "LookupError" in ast.unparse(h.type)]
+                    if not handlers:
+                        raise _Done("raise")
+                    r = run(handlers[0].body, facts, env)
+                    if r == "continue":
+                        return r
+                else:
+                    r = run(st.body, facts, env)
+                    if r == "continue":
+                        return r
+                    r = run(st.orelse, facts, env)
+                    if r == "continue":
+                        return r
+                continue
+            if isinstance(st, ast.Continue):
+                return "continue"
+            if isinstance(st, ast.Break):
+                return "break"
+            if isinstance(st, ast.Pass):
+                continue
+            raise AnalysisError(f"Unit.resolve_symbol: statement `{ast.unparse(st)[:40]}` is outside the resolution-order walker")
+        return "fall"
+    body = [x for x in fi.node.body if not (isinstance(x, ast.Expr) and isinstance(x.value, ast.Constant))]  # type: ignore[attr-defined]
+    got: Dict[Tuple[bool, bool, bool], str] = {}
+    for S in (True, False):
+        for P in (True, False):
+            for N in (True, False):
+                try:
+                    run(body, {"S": S, "P": P, "N": N}, {})
+                    got[(S, P, N)] = "fall"
+                except _Done as d:
+                    got[(S, P, N)] = d.kind
+    want = {(S, P, N): ("symbol" if S else "split" if P else "name" if N else "raise") for S in (True, False) for P in (True, False) for N in (True, False)}
+    diff = {k: (got[k], want[k]) for k in want if got[k] != want[k]}
+    rep.check("R13.2", "Unit.resolve_symbol:order", not diff,
+              f"Unit.resolve_symbol does not resolve in the order exact symbol, first prefix+symbol split, name, KeyError: for (symbol registered, "
+              f"a split resolves, name registered) = {list(diff)[:2]} it yields {[v[0] for v in diff.values()][:2]} where the symbol-table analysis assumes "
+              f"{[v[1] for v in diff.values()][:2]}", fi.where())
 
 
 def symbol_table(rep: Report, ev: Evaluator, sym: "re.Pattern[str]", thorough: bool, rid1: str = "R13.1", rid2: str = "R13.2",
@@ -236,15 +327,37 @@ def spellings(rep: Report, prog: Program, tables: Tables) -> None:
         same = len(rets) == 1 or (origin == "magnitude" and rets <= {"int", "float", "Numeric"})
         rep.check("R13.5", f"rule:{origin}", same, f"alternatives of `{origin}` go to callbacks {sorted(cbs)} returning {sorted(rets)}: "
                   "two spellings of one expression may build different things", f"{ci.path}:{ci.node.lineno}")
-    # the unit callback divides, unit_sequence multiplies, term raises to the exponent
-    checks = {"unit": ("/", "numerator"), "unit_sequence": ("mul", "terms"), "term": ("**", "exponent")}
-    for cb, (op, arg) in checks.items():
+    # the unit callback divides, unit_sequence multiplies, term raises to the exponent: decided on the resolved call
+    # sites of the callback and of the parsing-module helpers it uses, not on its text
+    from ..calls import Resolver as _Resolver
+    res_ = _Resolver(prog)
+    checks = {"unit": "Unit.__truediv__", "unit_sequence": "Unit.__mul__", "term": "Unit.__pow__"}
+    for cb, dunder in checks.items():
         qs = prog.method("parsing.QuantityTransformer", cb)
         if not qs:
             continue
         fi = prog.functions[qs[0]]
-        txt = ast.unparse(fi.node)
-        rep.check("R13.5", f"callback:{cb}", op in txt and arg in txt, f"the `{cb}` callback no longer combines its children with `{op}`", fi.where())
+        targets: Set[str] = set()
+        todo = [fi.qual]
+        seen_: Set[str] = set()
+        while todo:
+            q_ = todo.pop()
+            if q_ in seen_:
+                continue
+            seen_.add(q_)
+            for cs in res_.callsites(q_):
+                targets |= set(cs.targets)
+                for t_ in cs.targets:
+                    if t_ in prog.functions and prog.functions[t_].module == "parsing":
+                        todo.append(t_)
+            # reduce(helper, terms): the helper is an argument, not a call
+            for n_ in ast.walk(prog.functions[q_].node):
+                if isinstance(n_, ast.Call) and ast.unparse(n_.func).split(".")[-1] == "reduce" and n_.args and isinstance(n_.args[0], ast.Name):
+                    hq = prog.modules["parsing"].functions.get(n_.args[0].id)
+                    if hq:
+                        todo.append(hq)
+        rep.check("R13.5", f"callback:{cb}", dunder in targets, f"the `{cb}` callback no longer combines its children with {dunder} "
+                  f"(operators it reaches: {sorted(t for t in targets if '.__' in t)[:5]})", fi.where())
 
 
 def token_resolution(rep: Report, prog: Program, resolver: Resolver) -> None:
